@@ -358,3 +358,9 @@ def run(S):
     la = lock_analysis(S.facts())
     rule_mul(S, la)
     rule_link(S, la)
+    # mechanisms this property rests on (checks/shared.py)
+    from checks import shared
+    shared.version_word(S)
+    shared.permutation_word(S)
+    shared.key_order(S)
+    shared.value_words(S)
